@@ -27,6 +27,8 @@ struct Flash {
     // observations
     int reads = 0, writes = 0;
     int last_read_ret = 0, last_write_ret = 0;
+    size_t rbytes = 0, wbytes = 0;  // bytes transferred by callbacks that returned the full count
+    int rfaulted = 0, wfaulted = 0; // callbacks that were made to fail or fall short
     bool out_of_range = false;
     Run *run = nullptr;
     bool record = false;
@@ -37,6 +39,7 @@ static int flash_read(const ascon_storage_t *s, size_t off, unsigned char *data,
     Flash *f = (Flash *)s;
     f->reads++;
     if (off + size > f->mem.size()) { f->out_of_range = true; size = off < f->mem.size() ? f->mem.size() - off : 0; }
+    if (f->read_fault) f->rfaulted++;
     if (f->read_fault == 1) { if (f->record) f->run->fault("nv.read_err"); return f->last_read_ret = -1; }
     if (f->read_fault == 2) {
         size_t n = size ? f->fault_arg % size : 0;
@@ -45,6 +48,7 @@ static int flash_read(const ascon_storage_t *s, size_t off, unsigned char *data,
         return f->last_read_ret = (int)n;
     }
     if (size) memcpy(data, f->mem.data() + off, size);
+    f->rbytes += size;
     return f->last_read_ret = (int)size;
 }
 static int flash_write(const ascon_storage_t *s, size_t off, const unsigned char *data, size_t size, int erase)
@@ -53,6 +57,7 @@ static int flash_write(const ascon_storage_t *s, size_t off, const unsigned char
     (void)erase;
     f->writes++;
     if (off + size > f->mem.size()) { f->out_of_range = true; size = off < f->mem.size() ? f->mem.size() - off : 0; }
+    if (f->write_fault) f->wfaulted++;
     if (f->write_fault == 1) { if (f->record) f->run->fault("nv.write_err"); return f->last_write_ret = -1; }
     if (f->write_fault == 2 || f->write_fault == 3) {
         size_t n = size ? f->fault_arg % size : 0;
@@ -65,6 +70,7 @@ static int flash_write(const ascon_storage_t *s, size_t off, const unsigned char
         return f->last_write_ret = (int)n;
     }
     if (data && size) memcpy(f->mem.data() + off, data, size);
+    f->wbytes += size;
     return f->last_write_ret = (int)size;
 }
 
@@ -75,6 +81,7 @@ struct Event {          // one observable output of the device
     uint64_t tape_before; // tape bytes consumed before the call began
     uint64_t tape_after;  // ... and after it returned
     Bytes out;
+    bool due = false;     // fetch: 16384 bytes or more had been produced since the last reseed when the call began
 };
 struct Draw { uint64_t begin, end, epoch; }; // tape range consumed by one operation of one generator instance
 
@@ -97,7 +104,7 @@ struct PrngWorld : World {
             unsigned c = (unsigned)r.below(100);
             int64_t tr = faulty && r.chance(1, 6) ? 1 + (int64_t)r.below(8) : 0;
             int64_t pf = faulty && r.chance(1, 8) ? 1 + (int64_t)r.below(3) : 0;
-            int64_t nvf = faulty && r.chance(1, 4) ? 1 + (int64_t)r.below(5) : 0;
+            int64_t nvf = faulty && r.chance(1, 4) ? 1 + (int64_t)r.below(5) : r.chance(1, 25) ? 14 + (int64_t)r.below(2) : 0;
             int64_t nva = (int64_t)r.below(33);
             if (c < 45) {
                 int64_t n = limit_bias ? r.pickv({16383, 16384, 16385, 1, 1, 0, 8192, 8191, 40000, 32})
@@ -130,6 +137,7 @@ struct PrngWorld : World {
         std::vector<std::pair<int, uint64_t>> feeds; // (op index, epoch) of non-empty feeds
         int flip_feed_op = -1;                        // twin: flip one byte of this feed
         int flip_flash_op = -1;                       // twin: flip one byte of the stored seed right before this load
+        unsigned flip_flash_byte = 5;                 // ... which of its 32 bytes (chosen by the plan)
         std::vector<std::pair<int, uint64_t>> loads;   // (op index, epoch) of loads whose read callback delivered a full seed
         std::vector<Bytes> *residue = nullptr;
         jmp_buf jb;
@@ -240,6 +248,7 @@ struct PrngWorld : World {
         GuardBuf out(n, (unsigned)n, false);
         ascon_random_fetch(c.ram, out.p, n);
         bool drew = c.rng.calls > before.calls;
+        bool due_at_start = n >= 1 && c.model_counter >= RESEED_LIMIT;
         if (c.record) {
             if (!out.intact()) c.run->violation("C12", "canary", "ascon_random_fetch", "output canary damaged");
             c.run->fold(out.p, n);
@@ -254,7 +263,7 @@ struct PrngWorld : World {
         }
         if (drew) c.model_counter = 0;
         c.model_counter += n;
-        c.events.push_back(Event{c.run->cur_op, 0, c.epoch, before.pos, c.rng.pos, Bytes(out.p, out.p + n)});
+        c.events.push_back(Event{c.run->cur_op, 0, c.epoch, before.pos, c.rng.pos, Bytes(out.p, out.p + n), due_at_start});
         count_rng_faults(c, before);
         disarm(c);
         check_rate_zero(c, "fetch");
@@ -296,28 +305,35 @@ struct PrngWorld : World {
         arm(c, op.arg(2), op.arg(3));
         simrng_t before = c.rng;
         int w0 = c.flash.writes;
+        c.flash.wbytes = 0;
+        c.flash.wfaulted = 0;
+        int nullp = (int)(op.u(0) % 16 >= 14 ? op.u(0) % 16 - 13 : 0); // 1: NULL storage, 2: NULL state (documented: -1)
+        if (nullp) { c.flash.write_fault = c.flash.read_fault = 0; }
         c.flash.power = &c.jb;
         if (setjmp(c.jb)) { power_loss(c); return; }
-        int r = ascon_random_save_seed(c.ram, &c.flash.st);
+        int r = ascon_random_save_seed(nullp == 2 ? nullptr : c.ram, nullp == 1 ? nullptr : &c.flash.st);
         c.flash.power = nullptr;
         bool drew = c.rng.calls > before.calls;
         if (drew) c.model_counter = 0;
         if (c.record) {
             c.run->fold_u64((uint64_t)(int64_t)r);
-            bool too_small = c.flash.st.size < ASCON_RANDOM_SAVED_SEED_SIZE;
-            bool wrote = c.flash.writes > w0 && c.flash.last_write_ret == ASCON_RANDOM_SAVED_SEED_SIZE;
+            bool too_small = nullp || c.flash.st.size < ASCON_RANDOM_SAVED_SEED_SIZE;
+            // "saved" = the storage took a whole seed and none of its callbacks was made to fail, in however many calls
+            bool wrote = c.flash.writes > w0 && c.flash.wfaulted == 0 && c.flash.wbytes >= ASCON_RANDOM_SAVED_SEED_SIZE;
             // documented: non-zero = saved, zero = storage failed, -1 = invalid parameters
             int want = too_small ? -1 : wrote ? 1 : 0;
             bool ok = too_small ? r == -1 : wrote ? (r != 0 && r != -1) : r == 0;
             if (!ok) c.run->violation("C15", "status", "ascon_random_save_seed",
-                                      fmt("returned %d, expected %s (storage size %zu, write callback returned %d)", r, want == -1 ? "-1" : want ? "non-zero" : "0", c.flash.st.size, c.flash.writes > w0 ? c.flash.last_write_ret : -99));
+                                      fmt("returned %d, expected %s (%s, storage size %zu, %d write callbacks of which %d were made to fail, %zu bytes taken)", r, want == -1 ? "-1" : want ? "non-zero" : "0",
+                                          nullp == 1 ? "NULL storage" : nullp == 2 ? "NULL state" : "valid pointers", c.flash.st.size, c.flash.writes - w0, c.flash.wfaulted, c.flash.wbytes));
             if (too_small && c.flash.writes > w0) c.run->violation("C12", "storage_bounds", "ascon_random_save_seed", "wrote to a storage region smaller than the seed");
+            if (nullp) c.run->probe("status.null_parameter");
             c.run->state(fmt("save/%d/%d", (int)(op.u(0) % 6), want));
         }
         count_rng_faults(c, before);
         c.flash.write_fault = c.flash.read_fault = 0;
         disarm(c);
-        check_rate_zero(c, "save_seed");
+        // (C15 names init, fetch, feed and reseed for the zero-the-rate-then-permute step; save and load are not judged for it)
     }
 
     static void do_load(Ctx &c, const Op &op)
@@ -327,28 +343,33 @@ struct PrngWorld : World {
         arm(c, op.arg(2), op.arg(3));
         simrng_t before = c.rng;
         int r0 = c.flash.reads;
+        c.flash.rbytes = 0;
+        c.flash.rfaulted = 0;
+        int nullp = (int)(op.u(0) % 16 >= 14 ? op.u(0) % 16 - 13 : 0);
+        if (nullp) { c.flash.write_fault = c.flash.read_fault = 0; }
         c.flash.power = &c.jb;
         if (setjmp(c.jb)) { power_loss(c); return; }
-        if (c.flip_flash_op == c.run->cur_op && c.flash.mem.size() >= 32) c.flash.mem[5] ^= 0x20;
-        int r = ascon_random_load_seed(c.ram, &c.flash.st);
+        if (c.flip_flash_op == c.run->cur_op && c.flash.mem.size() >= 32) c.flash.mem[c.flip_flash_byte % 32] ^= 0x20;
+        int r = ascon_random_load_seed(nullp == 2 ? nullptr : c.ram, nullp == 1 ? nullptr : &c.flash.st);
         c.flash.power = nullptr;
         if (c.rng.calls > before.calls) c.model_counter = 0;
-        if (c.flash.reads > r0 && c.flash.last_read_ret == ASCON_RANDOM_SAVED_SEED_SIZE && c.flash.st.size >= ASCON_RANDOM_SAVED_SEED_SIZE)
+        if (!nullp && c.flash.reads > r0 && c.flash.rfaulted == 0 && c.flash.rbytes >= ASCON_RANDOM_SAVED_SEED_SIZE && c.flash.st.size >= ASCON_RANDOM_SAVED_SEED_SIZE)
             c.loads.push_back({c.run->cur_op, c.epoch});
         if (c.record) {
             c.run->fold_u64((uint64_t)(int64_t)r);
-            bool too_small = c.flash.st.size < ASCON_RANDOM_SAVED_SEED_SIZE;
-            bool got = c.flash.reads > r0 && c.flash.last_read_ret == ASCON_RANDOM_SAVED_SEED_SIZE;
+            bool too_small = nullp || c.flash.st.size < ASCON_RANDOM_SAVED_SEED_SIZE;
+            bool got = c.flash.reads > r0 && c.flash.rfaulted == 0 && c.flash.rbytes >= ASCON_RANDOM_SAVED_SEED_SIZE;
+            if (nullp) c.run->probe("status.null_parameter");
             int want = too_small ? -1 : got ? 1 : 0;
             bool ok = too_small ? r == -1 : got ? (r != 0 && r != -1) : r == 0;
             if (!ok) c.run->violation("C15", "status", "ascon_random_load_seed",
-                                      fmt("returned %d, expected %s (storage size %zu, read callback returned %d)", r, want == -1 ? "-1" : want ? "non-zero" : "0", c.flash.st.size, c.flash.reads > r0 ? c.flash.last_read_ret : -99));
+                                      fmt("returned %d, expected %s (%s, storage size %zu, %d read callbacks of which %d were made to fail, %zu bytes delivered)", r, want == -1 ? "-1" : want ? "non-zero" : "0",
+                                          nullp == 1 ? "NULL storage" : nullp == 2 ? "NULL state" : "valid pointers", c.flash.st.size, c.flash.reads - r0, c.flash.rfaulted, c.flash.rbytes));
             c.run->state(fmt("load/%d/%d", (int)(op.u(0) % 6), want));
         }
         count_rng_faults(c, before);
         c.flash.write_fault = c.flash.read_fault = 0;
         disarm(c);
-        check_rate_zero(c, "load_seed");
     }
 
     static void do_grandom(Ctx &c, const Op &op)
@@ -382,6 +403,7 @@ struct PrngWorld : World {
         c.salt = salt;
         c.flip_feed_op = flip_feed_op;
         c.flip_flash_op = flip_flash_op;
+        c.flip_flash_byte = (unsigned)((plan.digest() >> 9) % 32);
         c.residue = residue;
         simrng_reset(&c.rng, (uint64_t)plan.knob("tape", 0) * 0 + plan_knob2(plan, "tape", 1) + salt, (int)plan.knob("tape", 0) % 7);
         c.rng.flip_pos = flip_pos;
@@ -494,7 +516,7 @@ struct PrngWorld : World {
             if (x.out.size() < 16 || x.out.size() != y.out.size()) continue;
             bool later;
             if (x.kind == 1) later = feed_op < 0 && x.tape_before <= flip_pos && flip_pos < x.tape_after;
-            else if (feed_op < 0) later = x.epoch == epoch_of_flip && x.tape_before > flip_pos;
+            else if (feed_op < 0) later = x.epoch == epoch_of_flip && (x.tape_before > flip_pos || (x.due && x.tape_before <= flip_pos && flip_pos < x.tape_after));
             else later = x.epoch == epoch_of_flip && x.op > feed_op;
             if (!later) continue;
             any_checked = true;
